@@ -20,14 +20,30 @@ MANIFEST = {
             "an independently written specification encoder over the objects (C09_observe_eq_spec, all classes, nested); scan "
             "gating per component kind; absent / deleted / node-not-ON read as default with operating_status still reported; slot "
             "i+1 reads configured component i, padding reads default, ACL entry i is list position i; the folder cache equals the "
-            "visible health at every step of every scan-coherent trajectory; NMNE memory holds the previous counters. Tie: scan-gate "
-            "keys and cache update regenerated from the source (C09_gen_scan_gates) + rig that reads ground truth from the objects "
-            "(not from describe_state), sends it to the model and diffs spec(truth) with the observation the environment returned, "
-            "at every step of random and adversarial trajectories (direct object mutation included).",
+            "visible health at every step of every scan-coherent trajectory; NMNE memory holds the previous counters. "
+            "WHICH option governs which leaf is proved from the scenario's words (Model/ObsConfig): the effective option of a host "
+            "= host-level value if given, else nodes-level value, else the documented default, for every inheritable option "
+            "(C09_effective_options, full since the F-C09-3 repair; counterexample for the old default proved), likewise routers / "
+            "firewalls / the acl sub-configuration; every service / application / folder / file / NIC slot of a built host is gated "
+            "by that effective option and a value at the child's own level is ignored (C09_built_host_gates); the health leaf the "
+            "code reports is the last-scanned value exactly when the SCENARIO's effective requires_scan is true "
+            "(C09_*_gate_from_scenario). The simulator-side condition of the folder-cache invariant is proved about C14's health "
+            "model: a folder's visible health changes only in a timestep in which a scan of it completes (C09_health_*). Objects "
+            "with one name: the statement presupposes distinct live names (Truth.NamesDistinct); under it the model's lookups are "
+            "the Python dictionary lookups (C09_first_match_is_dict_lookup, counterexample without it). "
+            "Tie: scan-gate keys and cache update (C09_gen_scan_gates), every ConfigSchema default, every push-down statement, "
+            "constructor and padding arguments of every from_config / __init__ (C09_gen_schema_*, C09_gen_pushdown_*, "
+            "C09_gen_ctor_args), the folder flag set at both writers of visible_health_status (C09_gen_folder_flag) + rig that reads "
+            "ground truth from the objects (not from describe_state), sends it to the model whose observation object was built from "
+            "the scenario's observation_space SECTION (not read back from the constructed object), and diffs spec(truth) with the "
+            "observation the environment returned at every step of random and adversarial trajectories (direct object mutation "
+            "included), with non-default nodes-level options that hosts do not repeat; an ACL family on real routers / firewalls "
+            "with every presence combination of the seven rule fields.",
     "note": "C09-specific: binned float leaves (NIC TRAFFIC, link PROTOCOLS) are excluded from the equality on steps where float rounding "
             "differs from the exact bin. The specification is independent of observe() but shares its threshold categoriser and "
-            "dictionary layout definitions.",
-    "technique": "Lean 4 refinement proof (code encoder o describe_state = specification over objects) + ground-truth differential rig",
+            "dictionary-layout definitions. A listed network interface monitors only its OWN monitored_traffic (the host/nodes value "
+            "is not pushed into it): modelled and stated (C09_built_nic_traffic), not treated as a defect.",
+    "technique": "Lean 4 refinement proof (code encoder o describe_state = specification over objects; construction from the scenario) + ground-truth differential rig",
     "design_ref": "5/C09",
 }
 MODULES = ["PrimaiteModel.Props.C09", "PrimaiteModel.Props.C09Cfg", "PrimaiteModel.Props.C09Health"]
@@ -295,7 +311,11 @@ def acl_family(ctx: Ctx, rng: Rng, n: int) -> int:
 # ----------------------------------------------------------------------------------------------- corpus witnesses (directed trajectories)
 def run_witness(rec: dict) -> Dict[str, Any]:
     """A directed trajectory on a shipped scenario: object-level operations + steps; returns the first step where the named leaf
-    differs from the ground truth, if any."""
+    differs from the ground truth, if any.  A `construction` witness instead holds a manager configuration: the object built from
+    it must be the one the model builds from the same words (option inheritance, defaults, padding)."""
+    if rec.get("kind") == "construction":
+        ok, detail = c02.construction_agrees(rec["cfg"])
+        return {"ok": ok, "bad": None if ok else detail}
     cfg = rig.load_cfg(rec["scenario"])
     for agent in cfg["agents"]:
         osp = agent.get("observation_space") or {}
@@ -340,8 +360,10 @@ def run_witness(rec: dict) -> Dict[str, Any]:
 
 def replay(rec: dict) -> bool:
     r = rec.get("replay", rec)
-    if "ops" in r:
+    if "ops" in r or r.get("kind") == "construction":
         return run_witness(r)["ok"]
+    if "cfg" in r and "diff" in r and r.get("recipe") is None:
+        return c02.construction_agrees(r["cfg"])[0]
     if "recipe" in r and r["recipe"] is not None:
         return c02.replay_env(r, "C09")
     return False
